@@ -44,7 +44,7 @@ func init() { engine.Register("C08", func() engine.Check { return &c08{} }) }
 func (c *c08) ID() string { return "C08" }
 func (c *c08) Meta() engine.Meta {
 	return engine.Meta{
-		Category:  "model_checking",
+		Category:  "fault_enumeration",
 		LevelName: "number of deviations of the history from the default (each case = one history x one interrupted block, all its crash points)",
 		Technique: "exhaustive crash-point enumeration (directory snapshot inside a hook after every durable write) over deviation-bounded histories on the real application, recovery compared with the never-crashed replica",
 		Rule: "histories: the dense history (touches all seven ledgers and the EVM) in variants g3 / g4L, the small-stake history, a 12-block history that crosses the reward-hash record at version 10, plus every single appended deviation from a core menu; " +
